@@ -273,6 +273,8 @@ pub struct FrontendCtx<'a, R: FileManager> {
     typing_exprs: Vec<(usize, bool)>,
     /// named unions a conditional type is being distributed over (type A = B | "x"; type B = A | "y")
     distributing_over: Vec<(BffFileName, u32, RuntypeUUID)>,
+    /// default exports being expanded in place for a qualifier-less import("...") type
+    expanding_import_types: Vec<RuntypeUUID>,
 }
 
 #[derive(Debug)]
@@ -1156,6 +1158,7 @@ impl<'a, R: FileManager> FrontendCtx<'a, R> {
             typing_values: vec![],
             typing_exprs: vec![],
             distributing_over: vec![],
+            expanding_import_types: vec![],
         }
     }
 
@@ -3026,7 +3029,26 @@ impl<'a, R: FileManager> FrontendCtx<'a, R> {
                     };
                     let resolved_addr = self.get_addressed_type(&new_addr, &anchor)?;
                     let rt_name = RuntypeName::Address(resolved_addr.type_address());
-                    return self.extract_addressed_type(&rt_name, type_args, &anchor);
+                    // the default export is expanded in place, without a definition of its own: one
+                    // that leads back to itself (import("./m") inside the default export of m) would
+                    // be expanded without end
+                    let uuid = RuntypeUUID {
+                        ty: rt_name.clone(),
+                        type_arguments: type_args.clone(),
+                    };
+                    if self.expanding_import_types.contains(&uuid) {
+                        return self.error(
+                            &anchor,
+                            DiagnosticInfoMessage::AnyhowError(
+                                "an import(\"...\") type without a qualifier cannot refer to the type it is part of"
+                                    .to_string(),
+                            ),
+                        );
+                    }
+                    self.expanding_import_types.push(uuid);
+                    let res = self.extract_addressed_type(&rt_name, type_args, &anchor);
+                    self.expanding_import_types.pop();
+                    return res;
                 }
             }
         };
